@@ -93,12 +93,36 @@ def worker(job):
         cons = load_contracts()
         cls = cons[key]
         v = VF.Verifier(MIDDLEWARE)
-        quick_ms = 300 if tier == "quick" else 1000
-        cli_s = 20 if tier == "quick" else 120
+        scale = float(os.environ.get("VERIF_BUDGET_SCALE", "1"))     # solver budgets x scale (slow machines; testing)
+        quick_ms = max(1, int((300 if tier == "quick" else 1000) * scale))
+        cli_s = (20 if tier == "quick" else 120) * scale
         cheap = {ok for k in load_known() if k.get("status", "known") == "known" for ok in k["obligations"]}
         res = R.verify_contract(v, cls, prop=prop, quick_ms=quick_ms, cli_timeout_s=cli_s,
                                 all_solvers=(tier == "thorough"), seed=seed,
                                 workdir=os.path.join(HERE, ".work"), cheap_keys=cheap)
+        # An obligation that has been discharged before (baseline_obligations.json) and is now left open by the solvers
+        # would be reported as a violation without a failing input.  Before that, it gets a second attempt with five times
+        # the budget: on a machine busier than usual a proof that normally takes seconds can miss the ordinary budget,
+        # and that must not raise an alarm on code where the property holds.  (At most 4 obligations per function.)
+        try:
+            base = set(load_baseline().get(prop, []))
+            late = [ob for ob in res["obligations"] if ob.result.verdict == "unknown" and ob.result.solver != "budget"
+                    and ob.oid.rsplit("#", 1)[0] in base and ob.oid.rsplit("#", 1)[0] not in cheap][:4]
+            if late:
+                first = {id(ob): ob.result for ob in late}
+                R._discharge_chunk(late, quick_ms * 10, cli_s * 5, False, seed + 1, os.path.join(HERE, ".work"), 2, True, cheap)
+                for ob in late:
+                    if ob.result.verdict == "unknown":
+                        r0 = first[id(ob)]
+                        r0.detail = (r0.detail or "") + " | second attempt with 5x budget: still undecided"
+                        r0.time += ob.result.time
+                        ob.result = r0
+                    else:
+                        ob.result.solver = ob.result.solver + "(second attempt, 5x budget)"
+        except solve.SolverDisagreement:
+            raise
+        except Exception:       # noqa: the second attempt is an extra; when it cannot run the first verdict stands
+            pass
         # A failing obligation that lies BEHIND a loop cut may be an artefact of the cut (the loop's invariant says too
         # little about the variables the obligation talks about - typical after a harmless restructuring of the loop).
         # Re-check: the same function with its loops executed exactly, up to 3 iterations, nothing havocked.  If that run
